@@ -59,7 +59,8 @@ class SchedSender:
 
     def release(self, i):
         fut, data = self.pending.pop(i)
-        fut.set_result(self.agent.respond(data))
+        if not fut.done():  # a cancelled caller took its future with it
+            fut.set_result(self.agent.respond(data))
 
 
 def op_coro(client, op):
@@ -101,8 +102,16 @@ def describe(agent_log_entry):
     return [e.get("type"), [[list(o), v] for o, v in e.get("varbinds", [])], bytes(e.get("user", e.get("community", b""))).hex(), e.get("a"), e.get("b")]
 
 
-def run_schedule(opset, proto, prefix, policy="lowest"):
-    """opset: list of (client index, op).  Returns trace of (chosen, enabled), per-op outcome."""
+def run_schedule(opset, proto, prefix, policy="lowest", cancel=None):
+    """opset: list of (client index, op).  Returns trace of (chosen, enabled), per-op outcome.
+    cancel = (step, op index): that operation's task is cancelled at that scheduling point."""
+    from harness import opslib as OL
+
+    with OL.with_clock([1000 + k for k in range(4000)]):  # distinct request ids for every request
+        return _run_schedule(opset, proto, prefix, policy, cancel)
+
+
+def _run_schedule(opset, proto, prefix, policy, cancel):
     version, level = proto
     agent = RA.Agent(db=list(DB))
     sender = SchedSender(agent)
@@ -128,6 +137,14 @@ def run_schedule(opset, proto, prefix, policy="lowest"):
         while True:
             for _ in range(12):
                 await asyncio.sleep(0)
+            if cancel and cancel[0] == step and not tasks[cancel[1]].done():
+                tasks[cancel[1]].cancel()
+                sender.pending.pop(cancel[1], None)
+                results[cancel[1]] = ["cancelled"]
+                for _ in range(12):
+                    await asyncio.sleep(0)
+            for k in [k for k, (f, _d) in sender.pending.items() if f.done()]:
+                sender.pending.pop(k)
             enabled = sorted(sender.pending)
             if not enabled:
                 break
@@ -209,9 +226,12 @@ def run_schedule_user(op, proto, c):
         if not t.done():
             t.cancel()
 
+    from harness import opslib as OL
+
     loop = asyncio.new_event_loop()
     try:
-        loop.run_until_complete(main())
+        with OL.with_clock([1000 + k for k in range(4000)]):
+            loop.run_until_complete(main())
     finally:
         loop.close()
     per_op = [d for _i, k, d in sender.events if k == "req"]
@@ -225,9 +245,13 @@ def views(run, idx, version):
 def check_run(res, case, run, solos, proto):
     version = proto[0]
     for i, s in enumerate(solos):
+        if run["results"][i] == ["cancelled"]:
+            continue
         if run["results"][i] != s["results"][0]:
             res.violate("sched-enum", case, s["results"][0], run["results"][i], f"operation {i} returned something else than when run alone", {"kind": "conc", "what": "result-differs"})
             return False
+        if views(run, i, version) != views(s, 0, version):
+            pass
         if views(run, i, version) != views(s, 0, version):
             res.violate("sched-enum", case, "solo requests", "other requests", f"operation {i} emitted other requests than when run alone", {"kind": "conc", "what": "requests-differ"})
             return False
@@ -307,6 +331,13 @@ def run(ctx):
         nclients = max(c for c, _ in opset) + 1
         solos = [run_schedule_user(op, proto, c) for c, op in opset]
         runs, complete = explore(opset, proto, limit, sampler)
+        # one operation is cancelled (task.cancel / wait_for timeout) at a random scheduling point:
+        # the others must still behave as when run alone
+        for _ in range(ctx.budget(4, 40)):
+            pre = [rng.randrange(len(opset)) for _ in range(rng.randint(0, 6))]
+            r = run_schedule(opset, proto, pre, policy=rng.choice(["lowest", "highest"]), cancel=(rng.randint(0, 3), rng.randrange(len(opset))))
+            runs.append(r)
+            res.count("schedules-with-cancellation")
         res.count(f"opsets:{proto[0]}")
         res.count("exhaustive-sets" if complete else "bounded-sets")
         for r in runs:
